@@ -183,3 +183,106 @@ def gen_script_queue(rnd, dyn=None):
     sp = dict(comps=[0.5, 0.5], nodeloci=[0, 1], edgeloci=[], multiloci=[], perel=perel, fixed=fixed, handlers=handlers, posts=posts)
     return dict(procs=[dict(cls='Script', name=None, spec=sp)], seq='bare', dyn=dyn or rnd.choice(['sto', 'syn']), nodes=nodes, edges=edges,
                 maxT=rnd.choice([3.0, 5.0]), seed=rnd.random(), specials=[0.125, 0.25, 0.5], pspecial=0.1, oracles=['clock', 'member'])
+
+
+# ---------------------------------------------------------------------------------------------------------------
+# C01: histories of process-API calls on a scripted compartmented model (no dynamics loop)
+def gen_ops(rnd, nops=30, lin_r=False):
+    ncomp = 3
+    nodes, edges = rand_net(rnd, 2, 7)
+    nodeloci = sorted(rnd.sample(range(ncomp), rnd.randint(1, 3)))
+    pairs = [(l, r) for l in range(ncomp) for r in range(ncomp) if (l != r or lin_r)]
+    edgeloci = [list(p) for p in rnd.sample(pairs, rnd.randint(1, 3))]
+    multiloci = []
+    if rnd.random() < 0.6:
+        l = rnd.randrange(ncomp); rs = sorted(rnd.sample([c for c in range(ncomp) if (c != l or lin_r)], 2))
+        multiloci.append([l, rs])
+    sp = dict(comps=[0.5, 0.25, 0.25], nodeloci=nodeloci, edgeloci=edgeloci, multiloci=multiloci, perel=[], fixed=[], handlers=[], posts=[])
+    # shadow of the network state, to generate legal operations only
+    V = list(nodes); E = {frozenset(e) for e in edges}; hascomp = set(nodes); nxt = max(nodes) + 1
+    ops = []
+    for _ in range(nops):
+        k = rnd.random()
+        withc = [n for n in V if n in hascomp]
+        if k < 0.35 and withc:
+            ops.append(['CC', rnd.choice(withc), rnd.randrange(ncomp)])
+        elif k < 0.45 and withc:                       # repeated no-op change is just a CC to the current compartment: drawn often enough
+            n = rnd.choice(withc); ops.append(['CC', n, rnd.randrange(ncomp)]); ops.append(list(ops[-1]))
+        elif k < 0.55:
+            c = None if rnd.random() < 0.2 else rnd.randrange(ncomp)
+            ops.append(['ADDNODE', nxt, c]); V.append(nxt)
+            if c is not None: hascomp.add(nxt)
+            nxt += 1
+        elif k < 0.62 and [n for n in V if n not in hascomp]:
+            n = rnd.choice([n for n in V if n not in hascomp]); ops.append(['SETC', n, rnd.randrange(ncomp)]); hascomp.add(n)
+        elif k < 0.75 and withc:
+            n = rnd.choice(withc)                      # includes nodes that still have edges
+            ops.append(['RMNODE', n]); V.remove(n); hascomp.discard(n); E = {e for e in E if n not in e}
+        elif k < 0.9 and len(withc) >= 1:
+            a = rnd.choice(withc); b = rnd.choice(withc) if rnd.random() < 0.9 else a
+            ops.append(['ADDEDGE', a, b]); E.add(frozenset((a, b)))      # may be an existing edge, or a self-loop
+        elif E:
+            e = rnd.choice(sorted(E, key=sorted)); a, b = (sorted(e) * 2)[:2]
+            if rnd.random() < 0.5: a, b = b, a
+            ops.append(['RMEDGE', a, b]); E.discard(e)
+    return dict(mode='ops', procs=[dict(cls='Script', name=None, spec=sp)], nodes=nodes, edges=edges, seed=rnd.random(), ops=ops,
+                dyn='sto', maxT=1.0)
+
+
+def run_ops_case(spec):
+    spec = json.loads(json.dumps(spec))
+    p0 = spec['procs'][0]; p0['spec'] = fixspec(p0['spec'])
+    sr = ScriptedRng(spec['seed']); vrepo.patch_rng(sr)
+    proc = ScriptProc(p0['spec'], p0.get('name'))
+    proc.setMaximumTime(spec['maxT'])
+    d = StochasticDynamics(proc, Gen(spec['nodes'], [tuple(e) for e in spec['edges']]))
+    st = {}
+    orig_build = proc.build
+    cfg = []
+
+    def build(params):
+        orig_build(params)
+        ex = Extract(proc, d); st['ex'] = ex
+        ex.register_script(proc)
+        cfg.append(f"NINST 1 " + ('1' if proc.instanceName() is not None else '0'))
+        for l in ex.loci: cfg.append(ex.locus_line(l))
+        ci = ex.cidx[id(proc)]
+        for c, hs in proc._effects.items():
+            if c in ci: cfg.append(f"EFFECT 0 {ci[c]} {','.join(str(ex.lidx[id(h[0].__self__)]) for h in hs)}")
+        cfg.append(f"S_INITC 0 " + ' '.join(f"{ci[c]}:{fb(pp)}" for c, pp in proc._compartments.items()))
+    proc.build = build
+    exp = []; info = dict(events=0, oracle=[], exc=None, tags=[])
+    d.set(dict())
+    d.setUp(d.parameters())
+    ex = st['ex']
+    exp.append("START " + state_line(d, ex))
+    r = check_loci(d, ex)
+    if r: info['oracle'].append(('loci', f"after set-up: {r}"))
+    inp_ops = []
+    for k, op in enumerate(spec['ops']):
+        a = tuple(op)
+        inp_ops.append("OP " + act_line(a, 0))
+        try:
+            proc.api(a, 0.0, None)
+        except RecursionError:
+            raise
+        except Exception as ex_:
+            info['exc'] = f"op {k} {op}: {type(ex_).__name__}: {ex_}"
+            exp.append(f"EXC {type(ex_).__name__}")
+            break
+        exp.append(f"ST log=[{' '.join(proc.log)}] | " + state_line(d, ex)); proc.log = []
+        info['events'] += 1
+        if not info['oracle']:
+            r = check_loci(d, ex)
+            if r: info['oracle'].append(('loci', f"after op {k} {op}: {r}"))
+    g0 = Gen(spec['nodes'], [tuple(e) for e in spec['edges']])._generate({})
+    inp = ["RESET", "NODES " + ' '.join(map(str, g0.nodes()))]
+    for u in g0.nodes(): inp.append(f"ADJ {u} " + ' '.join(map(str, g0.adj[u])))
+    inp += cfg + sr.lines + ["OPS"] + inp_ops
+    kinds = {o[0] for o in spec['ops']}
+    info['tags'] = sorted(kinds) + (['rmnode_with_edges'] if any(o[0] == 'RMNODE' for o in spec['ops']) else [])
+    info['handlers'] = []
+    return inp, exp, info
+
+
+RUNNERS = dict(ops=run_ops_case)
